@@ -40,8 +40,10 @@ def run(rep, props, replay=None):
         X = fd.smooth_curves(rng, n, x, rough=(i % 2 == 0), offset=float(rng.choice([0.0, 5.0])),
                              scale=float(rng.choice([1.0, 10.0, 0.1]))) + 0.05 * rng.normal(size=(n, m))
         X = np.round(X * 1024) / 1024
-        if i % 5 == 3:
+        if i % 10 == 3:
             X = X * 1e-6                      # "any scale": curves in small units
+        elif i % 10 == 8:
+            X = X * 2.0 ** -40                # picometre-sized units: every eigenvalue is below machine epsilon
         elif i % 5 == 4:
             X = X * 1e4
         d = fd.dense(x, X)
@@ -51,7 +53,7 @@ def run(rep, props, replay=None):
         with warnings.catch_warnings():
             warnings.simplefilter("ignore")
             Csurf = np.asarray(d.center().covariance(center=False).values)[0]
-        cs = max(1e-12, float(np.max(np.abs(Csurf))))
+        cs = max(1e-300, float(np.max(np.abs(Csurf))))
         for ncomp in ([1, 2, None] if quick else [1, 2, 3, min(5, n - 1), None]):
             if isinstance(ncomp, int) and ncomp > min(n - 1, m):
                 continue
@@ -89,6 +91,30 @@ def run(rep, props, replay=None):
                                   f"qclose {C.qlit(1e-7 * cs * np.ptp(x))} {C.qlit(ew[j])} {C.qlit(lam[kk])} && "
                                   f"vclose_sign {C.qlit(1e-6 * ps)} (back opsQ {C.qlist(s)} {C.qlist(ev[:, j])}) {C.qlist(phi[kk])}")
                     todo.append((t5, "cov: eigenfunction = W^-1/2 u of an independent eigen-decomposition", key, ncomp))
+            # history: an estimator object already fitted on OTHER data (other grid, other size) gives, refitted here,
+            # exactly what a fresh object gives
+            if ncomp in (2, None):
+                xo = fd.grid(rng, m + 3, kinds[(i + 1) % len(kinds)])
+                do = fd.dense(xo, np.round(fd.smooth_curves(rng, n + 2, xo) * 64) / 64)
+                for meth, fresh in (("covariance", f), ("inner-product", None)):
+                    with warnings.catch_warnings():
+                        warnings.simplefilter("ignore")
+                        if fresh is None:
+                            fresh = UFPCA(n_components=ncomp, method=meth)
+                            fresh.fit(d, method_smoothing=None)
+                        h = UFPCA(n_components=ncomp, method=meth)
+                        h.fit(do, method_smoothing=None)
+                        h.fit(d, method_smoothing=None)
+                    rep.case((kind, X.tobytes(), meth, repr(ncomp), "refit"), kind=f"history-refit/{meth}")
+                    e1, e2 = np.asarray(fresh.eigenvalues, float), np.asarray(h.eigenvalues, float)
+                    p1, p2 = np.asarray(fresh.eigenfunctions.values, float), np.asarray(h.eigenfunctions.values, float)
+                    m1, m2 = np.asarray(fresh.mean.values, float), np.asarray(h.mean.values, float)
+                    same = (e1.shape == e2.shape and p1.shape == p2.shape and np.array_equal(e1, e2, equal_nan=True)
+                            and np.array_equal(p1, p2, equal_nan=True) and np.array_equal(m1, m2, equal_nan=True))
+                    if not same:
+                        rep.violation(f"UFPCA({meth}, n_components={ncomp}): a fit on this dataset after a fit on another dataset differs "
+                                      f"from a fresh fit (the estimator keeps state from the earlier fit)",
+                                      {"grid": kind, "method": meth, "n_components": ncomp, "x": C.hexf(x), "X": C.hexf(X)})
             # ---------------- inner-product method
             if ncomp is None:
                 continue            # zero Gram eigenvalues: phi = X^T v / sqrt(0) is outside the stated relations
@@ -99,15 +125,25 @@ def run(rep, props, replay=None):
             Xc = np.asarray(g._training_data.values, float)
             nv = float(g._noise_variance)
             ls = np.asarray(g.eigenvalues, float) * n
-            if np.any(ls <= 1e-9 * max(1e-12, ls.max())):
+            Gref = (Xc * w) @ Xc.T - nv * np.eye(n)               # the Gram matrix of the model (noise-corrected diagonal)
+            top = float(np.max(np.linalg.eigvalsh((Gref + Gref.T) / 2)))
+            if top <= 1e-9 * float(np.max(np.abs(Gref))):
+                continue            # the noise correction leaves no positive eigenvalue: nothing is stated
+            # (a zero eigenvalue AMONG positive ones is F1's matter, C01)
+            if not np.all(np.isfinite(ls)) or ls.max() <= 0:
+                rep.violation(f"gram: no positive Gram eigenvalue / non-finite eigenfunctions for non-constant data "
+                              f"(n_components={ncomp}, grid={kind}, data scale {float(np.max(np.abs(X))):.3g})",
+                              {"grid": kind, "method": "inner-product", "n_components": ncomp, "x": C.hexf(x), "X": C.hexf(X)})
+                continue
+            if np.any(ls <= 1e-9 * ls.max()):
                 continue
             rs = np.sqrt(ls)
             vs = np.asarray(g._eigenvectors, float).T
             phis = np.asarray(g.eigenfunctions.values, float)
             ps = max(1.0, float(np.max(np.abs(phis))), float(np.max(np.abs(Xc))))
-            gs = max(1e-12, float(ls.max()))
+            gs = float(ls.max())
             key = (kind, X.tobytes(), "inner-product", repr(ncomp))
-            t6 = runq.add(f"gram_route {C.qlit(1e-7 * max(ps, gs))} {m}%nat {C.qmat(Xc)} (gram opsQ {qx} {C.qmat(Xc)} {C.qlit(nv)}) "
+            t6 = runq.add(f"gram_route {C.qlit(1e-7 * max(1.0, float(np.max(np.abs(phis)))))} {C.qlit(1e-7 * gs)} {m}%nat {C.qmat(Xc)} (gram opsQ {qx} {C.qmat(Xc)} {C.qlit(nv)}) "
                           f"{C.qlist(ls)} {C.qlist(rs)} {C.qmat(vs)} {C.qmat(phis)}")
             t7 = runq.add(f"orthogonal_w {C.qlit(1e-7 * ps * ps * max(1.0, np.ptp(x)))} {qw} {C.qmat(phis)}")
             todo += [(t6, "gram: phi = X^T v / sqrt(l), G v = l v", key, ncomp),
